@@ -84,10 +84,10 @@ def gen_geometry(rng, m, ground, force_template=None):
     n = rng.randrange(4, 11)
     free_t = ['dipole', 'vee', 'tee_free', 'star', 'two_wires', 'tapered',
               'arc', 'helix', 'loop', 'bent3', 'radii2', 'array', 'zigzag', 'mixed', 'array_tail',
-              'helix_fed', 'arc_fed']
+              'helix_fed', 'arc_fed', 'seg1_chain']
     gnd_t = ['monopole', 'monopole_ud', 'inv_l', 'tee_gnd', 'dipole', 'vee',
              'two_monopoles', 'arc', 'helix', 'gnd_star', 'tapered', 'two_wires',
-             'array', 'zigzag', 'mixed', 'gnd_fan', 'array_tail', 'helix_fed']
+             'array', 'zigzag', 'mixed', 'gnd_fan', 'array_tail', 'helix_fed', 'seg1_chain']
     t = rng.choice(gnd_t if ground else free_t)
     if force_template and force_template in (gnd_t if ground else free_t):
         t = force_template
@@ -241,6 +241,22 @@ def gen_geometry(rng, m, ground, force_template=None):
             m.features.append('fuzzy_junction')
         m.features.append('curve_joined_to_wire')
         m.exact = False
+    elif t == 'seg1_chain':
+        # a conductor built from single-segment (or 1..2 segment) wires joined
+        # end to end - the way tapered wires, arcs and helices are emulated
+        k = rng.randrange(5, 11)
+        only1 = rng.random() < 0.6
+        x = 0.0
+        for i in range(k):
+            ns = 1 if only1 else rng.choice([1, 1, 2])
+            x2 = x + L / k
+            ends = ((x, 0, h), (x2, 0, h)) if rng.random() < 0.85 else ((x2, 0, h), (x, 0, h))
+            o, v = _wire(ns, ends[0], ends[1], r)
+            add('wire', ns, r, o, v)
+            m.geo[-1]['p1'] = tuple(float(c) for c in ends[0])
+            m.geo[-1]['p2'] = tuple(float(c) for c in ends[1])
+            x = x2
+        m.features.append('single_segment_wires')
     elif t == 'array_tail':
         # 2..4 unconnected parallel elements and a tail (or two) whose END
         # is joined to the tip of one of them
@@ -445,7 +461,10 @@ def gen_sources(rng, m):
             key = ('abs', p)
             s = '%d' % p
         else:
-            g = rng.choice(m.geo)
+            cand = [g_ for g_ in m.geo if (g_.get('npulses', g_['nseg'] - 1) if m.exact else g_['nseg'] - 1) >= 1]
+            if not cand:
+                continue
+            g = rng.choice(cand)
             p = rng.randrange(1, max(g.get('npulses', g['nseg'] - 1) if m.exact else g['nseg'] - 1, 1) + 1)
             key = ('geo', p, g['etag'])
             s = '%d,%d' % (p, g['etag'])
@@ -453,6 +472,8 @@ def gen_sources(rng, m):
             continue
         used.add(key)
         a.append('--excitation-pulse=%s' % s)
+    if not a:
+        a.append('--excitation-pulse=%d' % rng.randrange(1, max(npl, 1) + 1))
     nsrc = len(a)
     volts = []
     if nsrc > 1 or rng.random() < 0.3:
@@ -503,7 +524,8 @@ def gen_loads(rng, m, kinds):
             for p in rng.sample(range(1, max(npl, 1) + 1), min(rng.choice([1, 1, 2]), max(npl, 1))):
                 a.append('--attach-load=%d,%d' % (n, p))
         elif form == 'geo':
-            g = rng.choice(m.geo)
+            cand = [g_ for g_ in m.geo if (g_.get('npulses', g_['nseg'] - 1) if m.exact else g_['nseg'] - 1) >= 1]
+            g = rng.choice(cand or m.geo)
             p = rng.randrange(1, max(g.get('npulses', g['nseg'] - 1) if m.exact else g['nseg'] - 1, 1) + 1)
             a.append('--attach-load=%d,%d,%d' % (n, p, g['etag']))
         elif form == 'all_geo':
@@ -577,7 +599,8 @@ def gen_model(rng, env=None, kinds=None, template=None):
 
 
 VARIANT_KINDS = ['scale', 'same', 'load_value', 'voltage', 'translate', 'rotate', 'drop_loads', 'taper',
-                 'segments', 'radius', 'media_form', 'toggle_ground', 'other_ground', 'reattach', 'taper_limits']
+                 'segments', 'radius', 'media_form', 'toggle_ground', 'other_ground', 'reattach', 'taper_limits',
+                 'scale_band']
 
 
 def variant_model(rng, m, force=None):
@@ -589,7 +612,8 @@ def variant_model(rng, m, force=None):
     v = copy.deepcopy(m)
     how = rng.choice(['scale', 'scale', 'same', 'load_value', 'voltage', 'translate', 'rotate', 'drop_loads',
                       'taper', 'segments', 'radius', 'media_form', 'media_form',
-                      'toggle_ground', 'toggle_ground', 'other_ground', 'reattach', 'reattach', 'taper_limits'])
+                      'toggle_ground', 'toggle_ground', 'other_ground', 'reattach', 'reattach', 'taper_limits',
+                      'scale_band'])
     if force:
         how = force
     elif any(x == '--taper-wire' for x in v.argv_geo) and rng.random() < 0.4:
@@ -607,6 +631,15 @@ def variant_model(rng, m, force=None):
                                          ([_g(rng.choice([0.5, 1.0, 3.0]))] if rng.random() < 0.5 else []))
         else:
             how = rng.choice(['voltage', 'segments', 'radius', 'same'])
+    if how == 'scale_band':
+        # the same design scaled to another band: all dimensions times s,
+        # all frequencies divided by s (electrically identical)
+        if m.env != 'free' or any(x == '--geo-scale' for x in v.argv_geo):
+            how = 'same'
+        else:
+            sc = rng.choice([0.5, 2.0, 0.25])
+            v.argv_geo += ['--geo-scale', _g(sc)]
+            v.pool_scale = sc
     if how == 'move_middle_wire':
         wi = [i for i, x in enumerate(v.argv_geo) if x == '-w']
         if len(wi) >= 5:
@@ -1281,7 +1314,7 @@ def gen_cli_task(rng, maxops=8, env=None, kinds=None, model=None, pool=None):
     cmds = []
     for i, m in enumerate(models):
         if pools.get(i) == 'same':
-            pool, probes = list(cmds[0]['pool']), []
+            pool, probes = sibling_pool(m, cmds[0]['pool']), []
         elif i in pools:
             pool, probes = pools[i]
         else:
@@ -1413,7 +1446,7 @@ def gen_plan(run_seed, tier='quick', env=None, kinds=None, shape=None):
         if siblings and first is not None and first.get('_model') is not None:
             # a sibling of the first task's model, at the same frequencies
             model = (fuzz_variant if rng.random() < 0.35 else variant_model)(rng, first['_model'])
-            pool = list(first['pool'])
+            pool = sibling_pool(model, first['pool'])
         if kind == 'direct':
             g = shared if rng.random() < 0.8 else rng.choice([None, 'ideal'])
             t = gen_direct_task(rng, ground=g, maxops=maxops)
@@ -1520,6 +1553,7 @@ def floor_plans(base_seed, tier='quick'):
     # sizes beyond library / block thresholds
     for j, kind in enumerate(['model', 'grid', 'cli', 'grid']):
         plans.append(big_plan(base_seed * 1000003 + 960000 + j, tier, kind, floor=True))
+    plans.append(big_plan(base_seed * 1000003 + 960009, tier, 'grid', floor=True, huge=True))
     plans += sibling_floor_plans(base_seed, tier, reps=2 if tier == 'quick' else 6)
     return plans
 
@@ -1751,11 +1785,15 @@ def big_model(rng, at_least=0):
     return m
 
 
-def big_plan(run_seed, tier='quick', kind=None, floor=False):
+def big_plan(run_seed, tier='quick', kind=None, floor=False, huge=False):
     rng = random.Random(run_seed)
     kind = kind or rng.choice(['model', 'grid', 'cli'])
     far_big = [[0, 5, 37], [0, 5, 73], None, 0]
     far_big2 = [[0, 2, 46], [0, 4, 91], 100.0, 1000.0]
+    if huge:
+        # the grids people plot: 2 degree and 1 degree full-sphere patterns
+        far_big = [[0, 2, 91], [0, 2, 181], None, 0]            # 16471 directions
+        far_big2 = [[0, 1, 181], [0, 1, 361], 100.0, 1000.0]    # 65341 directions
     tasks = []
     if kind == 'model':
         m = big_model(rng, at_least=340 if floor else 0)
@@ -1774,7 +1812,7 @@ def big_plan(run_seed, tier='quick', kind=None, floor=False):
                               probes=['big_model'], npulses=mm_.min_pulses()))
         sched = [0] * len(ops) + [1] * len(ops)
     elif kind == 'grid':
-        m = gen_model(rng)
+        m = tiny_model(rng) if huge else gen_model(rng)
         pool, probes = gen_pool(rng, m, k=2)
         ops = [['COMPUTE'], ['FAR', 0, 'r'], ['OBS_NUM'], ['SET_F', 1], ['COMPUTE'], ['FAR', 0, 'r'], ['OBS_NUM'],
                ['FAR', 1], ['OBS_REPORT', ['far-field', 'far-field-absolute']], ['SET_F', 0], ['COMPUTE'],
@@ -1830,7 +1868,15 @@ _SIB_BASE = {
     'other_ground': dict(envs=['ideal', 'real1', 'real2'], templates=[None], kinds=[None]),
     'reattach': dict(envs=['free', 'ideal'], templates=['array_tail', 'zigzag', 'tee_free', 'gnd_star'], kinds=[None]),
     'fuzz': dict(envs=['free', 'ideal', 'real2'], templates=[None], kinds=[None]),
+    'scale_band': dict(envs=['free'], templates=['dipole', 'vee', 'two_wires', 'array'], kinds=[[], ['impedance'], ['skin_c']]),
 }
+
+
+def sibling_pool(model, pool):
+    sc = getattr(model, 'pool_scale', None)
+    if sc:
+        return [float(repr(f / sc)) for f in pool]
+    return list(pool)
 
 
 def sibling_floor_plans(base_seed, tier='quick', reps=2):
@@ -1863,7 +1909,7 @@ def sibling_floor_plans(base_seed, tier='quick', reps=2):
                    ['NEAR', 0], ['FAR', 0], ['OBS_NUM'], ['OBS_CMDLINE']]
             tasks = []
             for mm_ in (base, sib):
-                tasks.append(dict(kind='api', builder='cli', argv=mm_.argv(), pool=list(pool[:2]), fars=[far],
+                tasks.append(dict(kind='api', builder='cli', argv=mm_.argv(), pool=sibling_pool(mm_, pool[:2]), fars=[far],
                                   nears=[near], ops=[list(o) for o in ops], template=mm_.template, env=mm_.env,
                                   features=sorted(set(mm_.features)), probes=list(probes),
                                   npulses=mm_.min_pulses() + 2 * len(mm_.geo)))
@@ -1874,9 +1920,11 @@ def sibling_floor_plans(base_seed, tier='quick', reps=2):
                               disk={}, tasks=tasks, schedule=sched))
             fa = field_args(rng, base, force=['far-field'])
             a0 = ['-f', repr(pool[0])] + base.argv() + fa + ['--output-cmdline', 'sib.txt']
-            a1 = ['-f', repr(pool[0])] + sib.argv() + fa + ['--output-cmdline', 'sib.txt']
+            p1 = sibling_pool(sib, pool)
+            a1 = ['-f', repr(p1[0])] + sib.argv() + fa + ['--output-cmdline', 'sib.txt']
             inc = float(repr(round(pool[1] - pool[0], 6)))
-            cli = dict(kind='cli', ops=[['RUN', a0], ['RUN', a1], ['SWEEP', a0, inc, 2, 0], ['SWEEP', a1, inc, 2, 0],
+            inc1 = float(repr(p1[1] - p1[0])) if getattr(sib, 'pool_scale', None) else inc
+            cli = dict(kind='cli', ops=[['RUN', a0], ['RUN', a1], ['SWEEP', a0, inc, 2, 0], ['SWEEP', a1, inc1, 2, 0],
                                         ['RUN', a0], ['RUN', a1]],
                        template=base.template, env=base.env, features=sorted(set(base.features + sib.features)),
                        probes=list(probes), npulses=base.min_pulses() + 2 * len(base.geo), pool=list(pool))
